@@ -438,6 +438,11 @@ impl<T> Rc<T> {
                 // it from the link tables of the `Rc`s it has adopted or been
                 // adopted by and destroy its own link table.
                 crate::drop::abandon_adoptions(&this);
+                #[cfg(cactusref_verif)]
+                {
+                    crate::verif::moved_out(this.ptr.as_ptr(), crate::verif::FIELD_VALUE);
+                    crate::verif::moved_out(this.ptr.as_ptr(), crate::verif::FIELD_LINKS);
+                }
 
                 // Indicate to Weaks that they can't be promoted by decrementing
                 // the strong count, and then remove the implicit "strong weak"
@@ -905,6 +910,11 @@ impl<T: Clone> Rc<T> {
                 // remove it from the link tables of the `Rc`s it has adopted
                 // or been adopted by and destroy its own link table.
                 crate::drop::abandon_adoptions(this);
+                #[cfg(cactusref_verif)]
+                {
+                    crate::verif::moved_out(this.ptr.as_ptr(), crate::verif::FIELD_VALUE);
+                    crate::verif::moved_out(this.ptr.as_ptr(), crate::verif::FIELD_LINKS);
+                }
 
                 this.inner().dec_strong();
                 // Remove implicit strong-weak ref (no need to craft a fake
